@@ -391,8 +391,18 @@ func zvkRandPrins(r *mrand.Rand) []string {
 
 // zvkConcrete instantiates an abstract KeyID value with concrete strings.
 func zvkConcrete(a zvkAbs, r *mrand.Rand) *zvkKid {
+	// the model's 1000001 / -1000001 stand for every value beyond 10^6 in magnitude
+	large := func(v int) int64 {
+		switch {
+		case v > 1000000:
+			return []int64{1000001, 1 << 31, 1 << 40, 1<<62 + 12345}[r.Intn(4)] + int64(r.Intn(1000))
+		case v < -1000000:
+			return -([]int64{1000001, 1 << 31, 1 << 40, 1<<62 + 12345}[r.Intn(4)] + int64(r.Intn(1000)))
+		}
+		return int64(v)
+	}
 	return &zvkKid{Principals: zvkRandPrins(r), TransID: zvkRandStr(r), ReqUser: zvkRandStr(r), ReqIP: zvkRandStr(r), ReqHost: zvkRandStr(r),
-		Ff: a.Ff, Hw: a.Hw, Hl: a.Hl, Nonce: a.Nonce, Usage: int64(a.Usage), Tp: int64(a.Tp), Ver: uint16(a.Ver)}
+		Ff: a.Ff, Hw: a.Hw, Hl: a.Hl, Nonce: a.Nonce, Usage: int64(a.Usage), Tp: large(a.Tp), Ver: uint16(a.Ver)}
 }
 
 // zvkOwnText writes the canonical text of a KeyID without using the encoder under test.
@@ -835,6 +845,7 @@ func zvkObserveKeyID(e *zvkEvent, crt *ssh.Certificate) {
 	if crt == nil {
 		return
 	}
+	e.Present = zvkPresent(crt.KeyId)
 	ok, k2, pan := zvkDecode(crt.KeyId)
 	e.Ok = ok
 	_ = pan // a crash of the decoder is C05's business; GetType's own call is observed below
